@@ -34,7 +34,7 @@ def run(ctx, replay=None):
     else:
         l1(ctx, "Auth", "CONSTANTS NReq = %d\nSPECIFICATION Spec\nINVARIANTS NoLeak Bounded ReuseKey TokensForOwnHost NeverFails OneFetchPerKey\n"
            "CHECK_DEADLOCK FALSE\n" % (2 if ctx.quick else 3), name="L1-Auth", timeout=2400)
-        out, summ = drive(ctx, {"VH_COUNT": 1500 if ctx.quick else 40000, "VH_CANON": 4000 if ctx.quick else 100000})
+        out, summ = drive(ctx, {"VH_COUNT": 1500 if ctx.quick else 150000, "VH_CANON": 4000 if ctx.quick else 300000})
     viol = monitor(ctx, "AuthMon", summ["files"], label="L3", heap="4g", par=6)
     scen = {s["id"]: s for s in read_ndjson(os.path.join(out, "scenarios.ndjson"))}
     seen = set()
